@@ -404,6 +404,21 @@ def run_case(case):
                     vio.append({'prop': PROP, 'kind': 'encoding-mismatch', 'mech': f'mismatch:{code_name}:after-identity-change',
                                 'detail': f'item renamed to {new_name!r} / origin {new_org} after a first encoding: expected '
                                           f'{exp[:16].hex()}, emitted {got[1][:16].hex()}'})
+        # objects of DIFFERENT types under one name, origin and copy number: an OBNAME identifies an object within its type only,
+        # an OBJREF carries the type
+        twins = [(lf.add_tool('TWIN', origin_reference=7), 'TOOL'), (lf.add_parameter('TWIN', origin_reference=7), 'PARAMETER'),
+                 (lf.add_zone('TWIN', origin_reference=7), 'ZONE'), (lf.add_process('TWIN', origin_reference=7), 'PROCESS')]
+        r.shuffle(twins)
+        for it, tname in twins:
+            evals[0] += 1
+            bump('code-OBJREF')
+            bump('objref-same-name-other-type')
+            exp = rp66.enc_ident(tname) + rp66.enc_obname(7, it.copy_number, 'TWIN')
+            got = real('OBJREF', it)
+            sigs.add('OBJREF:same-name-other-type')
+            if got[0] == 'ok' and got[1] != exp:
+                vio.append({'prop': PROP, 'kind': 'encoding-mismatch', 'mech': 'mismatch:OBJREF:same-name-other-type',
+                            'detail': f'{tname} TWIN (origin 7, copy {it.copy_number}): expected {exp[:20].hex()}, emitted {got[1][:20].hex()}'})
     elif k == 'history':
         r = gen.rng(seed, PROP, case['stratum'], case['index'])
         pool = []
